@@ -6,6 +6,8 @@ mod interpose;
 mod util;
 mod world;
 mod timed;
+#[cfg(feature = "async")]
+mod stream;
 #[cfg(not(feature = "force-inprocess"))]
 mod crash;
 #[cfg(not(feature = "force-inprocess"))]
@@ -34,6 +36,8 @@ fn main() {
     match args[1].as_str() {
         "world" => world::run(&args[2..]),
         "timed" => timed::run(&args[2..]),
+        #[cfg(feature = "async")]
+        "stream" => stream::run(&args[2..]),
         #[cfg(not(feature = "force-inprocess"))]
         "frag" => frag::run(&args[2..]),
         #[cfg(not(feature = "force-inprocess"))]
